@@ -80,3 +80,13 @@ def sum_(vals):
     for v in vals:
         acc = T.add(acc, v)
     return acc
+
+
+def witness_any(e, label, *tensors):
+    """Reachability witness: at least one element of the given (boolean / numeric) tensors is non-zero on some path."""
+    acc = False
+    for t in tensors:
+        arr = e.read(t) if isinstance(t, torch.Tensor) else t
+        for v in np.asarray(arr, dtype=object).reshape(-1):
+            acc = T.bor(acc, T.tob(v))
+    e.witness(label, acc)
